@@ -905,10 +905,17 @@ class Collector:
         einsum = self.program.get_equation().get_output().root_name()
 
         active_bindings: Dict[str, List[dict]] = {}
+        loop_formats = self.metrics.get_loop_formats()
         # Filter out the bindings to ignore
         for buffer_ in self.metrics.get_hardware().get_components(einsum, BufferComponent):
             active_bindings[buffer_.get_name()] = []
             for binding in buffer_.get_bindings()[einsum]:
+                # Only the format used by this loop nest is traced (see
+                # Metrics.get_collected_tensor_info()), so a binding to
+                # another format of the tensor has no traffic here
+                if loop_formats.get(binding["tensor"]) != binding["format"]:
+                    continue
+
                 format_ = self.metrics.get_format().get_spec(
                     binding["tensor"])[binding["format"]]
                 rank = binding["rank"]
